@@ -58,7 +58,9 @@ SCENARIOS = {
 
 _QUERIES = {}
 # (thread name as the kernel shows it, ms before the wake-all, ms after it)
-SYNC_DELAYS = [('find_calling_pr', 300, 300), ('find_calling_pr', 0, 400), ('find_calling_pr', 400, 0), ('delta', 200, 200)]
+SYNC_DELAYS = [('find_calling_pr', 300, 300), ('find_calling_pr', 0, 400), ('find_calling_pr', 400, 0), ('delta', 200, 200),
+               # a background determination that takes long (a slow process table): the query waits as long as it takes
+               ('find_calling_pr', 1500, 0)]
 
 
 SYNC_SHIM = os.path.join(runner.STUBS, 'syncdelay.so')
@@ -126,7 +128,7 @@ def run_scenario(name, sched=None, hold=False, jitter=None, variant='hooks', tim
                 pass
             proc.stdin = None
         if hold:
-            res['hold_released'] = release_when_waiting(proc, trace_path, hold_path)
+            res['hold_released'] = release_when_waiting(proc, trace_path, hold_path, extra_wait=hold if isinstance(hold, float) else 0)
         try:
             out, err = proc.communicate(timeout=timeout)
         except subprocess.TimeoutExpired:
@@ -192,7 +194,7 @@ def main_thread_waiting(pid):
         return False
 
 
-def release_when_waiting(proc, trace_path, hold_path):
+def release_when_waiting(proc, trace_path, hold_path, extra_wait=0):
     """Wait (logically) until query 1 has passed its gate and the main thread sleeps in futex, then release the
     background thread.  Returns 'waiting' when that state was reached, 'not-reached' otherwise (the hold is released
     anyway so that the run can end)."""
@@ -213,6 +215,12 @@ def release_when_waiting(proc, trace_path, hold_path):
                     state = 'waiting'
                     break
         time.sleep(0.002)
+    if state == 'waiting' and extra_wait:
+        # the query keeps waiting, however long the background determination takes
+        time.sleep(extra_wait)
+        pid = delta_pid_of(proc.pid)
+        if proc.poll() is not None or not (pid and main_thread_waiting(pid)):
+            state = 'gave-up-waiting'
     with open(hold_path, 'w') as f:
         f.write('go')
     return state
@@ -305,6 +313,7 @@ def schedules_for(name, nq):
     else:
         out.append(('B<Q1', ['bg:before_lock', 'bg:done'] + qs[:1]))
         out.append(('Q1-waits-then-B', 'HOLD'))
+        out.append(('Q1-waits-long-then-B', 'HOLD-LONG'))
     return out
 
 
@@ -414,10 +423,13 @@ def run_item(item):
             return outs
         nq = sum(1 for l in ref['trace'] if l.startswith('query') and ' -> ' in l)
         for label, sched in schedules_for(name, nq):
-            if sched == 'HOLD':
-                r = run_scenario(name, hold=True)
+            if sched in ('HOLD', 'HOLD-LONG'):
+                r = run_scenario(name, hold=1.5 if sched == 'HOLD-LONG' else True)
                 o = evaluate(name, r, label, ref['out'])
-                if o['status'] == 'held' and r['hold_released'] != 'waiting':
+                if r['hold_released'] == 'gave-up-waiting' and o['status'] == 'held':
+                    o = violated('c20:query-gave-up', 'a query stopped waiting before the background determination had published its result (%s, schedule %s)' % (name, label),
+                                 sets={'scenarios': [name]}, extra={'trace': r['trace'][-20:]})
+                elif o['status'] == 'held' and r['hold_released'] != 'waiting':
                     o = inconclusive('the state "query 1 waits before the background store" was not reached (%s)' % name,
                                      sets={'scenarios': [name]})
                 elif o['status'] == 'held':
